@@ -39,6 +39,15 @@ CHECKS.update({
    technique="TLA+ pipeline model with fault actions + TLC + fault injection on the real binary + trace validation"),
 })
 
+CHECKS.update({
+ "C15": dict(level="model_checking", ref="5/C15", note=RUNTRUST,
+   text="Discover.tla defines the reference set (P) and a transcription of the walk with pruning, de-duplication and sorting (I); TLC checks I = P for every tree of depth 2 with up to 2 entries per directory over a 6-name alphabet crossed with every argument list of up to 2 entries (about 590 000 scenarios). A seeded sample of scenarios with longer, overlapping and repeated argument lists is materialised on disk and run with a non-idempotent patch and -v; TLC (TraceDiscover.tla) judges the observed changed-file set, double processing, -v order and collateral modifications against the reference set.",
+   technique="TLA+ reference set vs walk transcription, exhaustive TLC enumeration + trace validation of materialised trees"),
+ "C18": dict(level="model_checking", ref="5/C18", note=RUNTRUST,
+   text="Generated.tla enumerates header shapes (detached comments, package comment, comment after the clause and in the body; 7 text classes incl. near-miss spellings; line/block style) and classifies each by the statement (marked / unmarked / unconstrained); TLC checks the code's predicate against the constrained classes. Every judged header x flag on/off x {write, print, diff} is run through the real binary and judged with the C18 predicates of Pipeline.tla on the observed state (protected: untouched, nothing printed; plain: processed exactly as without the flag).",
+   technique="TLA+ header classification + pipeline model + trace validation"),
+})
+
 NOT_YET = {
 }
 
@@ -72,8 +81,8 @@ def main():
             "add_only": True,
         },
         "engines": [
-            {"name": "tla-run", "path": "spec/Pipeline.tla spec/TracePipeline.tla spec/TraceModes.tla harness/cli.go lib/fam_run.py lib/fam_emit.py",
-             "serves_properties": ["C06", "C07", "C12", "C16"],
+            {"name": "tla-run", "path": "spec/Pipeline.tla spec/TracePipeline.tla spec/TraceModes.tla spec/Generated.tla spec/Discover.tla spec/TraceDiscover.tla harness/cli.go lib/fam_run.py lib/fam_emit.py",
+             "serves_properties": ["C06", "C07", "C12", "C15", "C16", "C18"],
              "kind_free_text": "state machine of the command's run pipeline with fault actions; hook-event and black-box trace validation of real CLI runs (strace, prlimit)"},
             {"name": "tla-rewrite", "path": "spec/Pattern.tla spec/RewriteUniverse.tla spec/MCRewrite.tla spec/TraceRewrite.tla harness/",
              "serves_properties": ["C01", "C02", "C03", "C04", "C05"],
